@@ -34,8 +34,8 @@ ASSUMPTIONS = ["class membership is monitored on the draws made, with the docume
 PROBES = ["twin_across_entropy_jump", "twin_in_worker_fork", "twin_in_worker_fresh", "exception_family_drawn",
           "cheerleader_drawn", "monotone_family_drawn"]
 TIERS = {
-    "quick": {"runs": 4000, "wall": 40, "batch": 8, "shrink_s": 40},
-    "thorough": {"runs": 300000, "wall": 600, "batch": 16, "shrink_s": 120},
+    "quick": {"runs": 40000, "wall": 40, "batch": 24, "shrink_s": 40},
+    "thorough": {"runs": 5000000, "wall": 900, "batch": 32, "shrink_s": 120},
 }
 
 MONOTONE = re.compile(r"^(xos|xs|oxs|k_budget|covg)")
